@@ -157,6 +157,27 @@ def run(eng, R):
         and "_sig_fig_val = max(_sig_fig_err," in src
     R.ob("T-live", "get_compact_representation:rows", ok, (f.file, f.lineno), "each row must show name, value and uncertainty of the same position; the value is rounded to at least the decimals of the uncertainty")
 
+    # every log10 in the compact table is taken of a quantity that was tested against zero / nan on the way there
+    f = get_func(p, None, "kafe2.tools:get_compact_representation")
+    n_log = 0
+    for c in ast.walk(f.node):
+        if isinstance(c, ast.Call) and _txt(c.func) in ("np.log10", "math.log10", "log10") and c.args:
+            names = [x.id for x in ast.walk(c.args[0]) if isinstance(x, ast.Name) and x.id not in ("np", "math")]
+            if len(names) != 1:
+                continue
+            n_log += 1
+            v = names[0]
+            conds = common.guard_conditions(f.node, c)
+            guarded = False
+            for t, pol in conds:
+                for cmp_ in ast.walk(t):
+                    if isinstance(cmp_, ast.Compare) and isinstance(cmp_.left, ast.Name) and cmp_.left.id == v and isinstance(cmp_.comparators[0], ast.Constant) and cmp_.comparators[0].value in (0, 0.0):
+                        guarded = True
+            R.ob("T-live", "get_compact_representation:log10(%s)" % v, guarded, (f.file, c.lineno),
+                 "the number of digits is computed from log10(|%s|) without excluding %s == 0: writing a fit whose %s is exactly zero raises OverflowError" % (v, v, v))
+    if n_log < 3:
+        raise AnalysisError("get_compact_representation: digit computations not found")
+
     # ------------------------------------------------------------------ H-dec
     SF = "kafe2.fit._base.format:ScalarFormatter"
     f = get_func(p, SF, "__init__")
